@@ -38,7 +38,9 @@ HEQuick == {
   B("Quotient", N1, W),                \* wrapper nested inside a wrapper's child, and outside
   CSE0(W),                             \* wrapper directly around a wrapper
   B("Quotient", vc, W),                 \* raises in E2 after the wrapper was computed
-  CSE0(B("Quotient", vc, S)) }          \* the wrapper's child itself raises in E2
+  CSE0(B("Quotient", vc, S)),           \* the wrapper's child itself raises in E2
+  \* round 2: wrappers in the positions of a host that is no operation, one of them lazy
+  IfE(Cmp(W, "<", vc), B("Quotient", vc, W), Wp) }
 HEMore == {
   Call(ff, << W >>),
   N("Sum", << Wx, W >>),               \* twins differing in scope only
@@ -46,7 +48,10 @@ HEMore == {
   N("Sum", << N1, N1, W >>),
   B("Quotient", CSE0(B("Quotient", vc, S)), W),
   CSE(N("Product", << Wp, CSE0(B("Remainder", vc, KI(2))) >>), "q", "pymbolic_global"),
-  N("Product", << CSE0(KI(2)), CSE0(va), W >>) }
+  N("Product", << CSE0(KI(2)), CSE0(va), W >>),
+  Call(CSE0(IfE(Cmp(W, "<", vc), ff, V("g"))), << W, Wp >>),     \* a wrapper in the function position
+  N("LogOr", << Cmp(W, "<", vc), Cmp(Wp, "<", vc) >>),
+  CSE0(IfE(Cmp(vc, "<", W), Wx, N1)) }                             \* a lazy child of a wrapper
 HENeg == { N("Sum", << W, W >>), N("Product", << W, Wp >>), CSE0(B("Quotient", vc, S)), B("Quotient", N1, W) }
 HE == IF Tier = "quick" THEN HEQuick ELSE IF Tier = "neg" THEN HENeg ELSE HEQuick \cup HEMore
 Catalogue == { << x >> : x \in HE } \cup { p \in { << x, y >> : x \in HE, y \in HE } : p[1] # p[2] }
